@@ -108,8 +108,27 @@ fn corpus(thorough: bool) -> Vec<Item> {
             c.input.rate = 1;
         });
     }
+    if thorough {
+        // every single-coordinate deviation of the universe base points that yields a small stream
+        let uni = universe::Universe::new(1, false, true);
+        let mut k = 0;
+        for sh in &uni.shards {
+            uni.for_each_in_shard(sh, |p| {
+                let mut c = universe::decode(p);
+                if c.input.bs <= 64 {
+                    c.input.full = c.input.full.min(1);
+                    k += 1;
+                    cases.push((format!("u1_{k}"), c));
+                }
+            });
+        }
+    }
     let mut out = Vec::new();
     for (name, case) in cases {
+        // keep the exhaustive mutation sweep affordable
+        if name.starts_with("u1_") && case.input.len() * case.input.ch as usize * case.input.bps as usize > 8 * 1200 {
+            continue;
+        }
         let samples = case.input.samples();
         let Ok((stream, bytes)) = subject::encode_bytes(&case, &samples, Mode::St) else { continue };
         let Ok(audio) = audio_of(&stream) else { continue };
